@@ -151,12 +151,13 @@ Section Stream.
     destruct (find_desc_In g Hg) as [d [Hf [Hd Hin]]]. rewrite Hf.
     destruct (render_batch descs root (g_data G) d (g_outstanding G)) as [[[f data'] live] o'] eqn:Hr.
     intros H. inversion H; subst; clear H.
-    destruct (render_batch_sum _ _ _ _ _ _ _ _ _ Hr) as [S1 [S2 [S3 [S4 [S5 S6]]]]].
+    destruct (render_batch_sum _ _ _ _ _ _ _ _ _ Hr) as [S1 [S2 [S3 [S4 [S5 [S6 _]]]]]].
     exists f. simpl. repeat split; auto.
     - rewrite S5, map_length. reflexivity.
-    - intros x Hx. apply in_map_iff in Hx. destruct Hx as [d' [Hd1 Hd2]]. rewrite S6 in Hd2.
+    - intros x Hx. apply in_map_iff in Hx. destruct Hx as [d' [Hd1 Hd2]].
+      destruct S6 as [S6 | S6]; rewrite S6 in Hd2; [| contradiction].
       apply live_children_In in Hd2. destruct Hd2 as [Hd2 Hd3]. apply children_In. exists d'. auto.
-    - rewrite S6. apply live_children_ids_NoDup. exact Hids.
+    - destruct S6 as [S6 | S6]; rewrite S6; [apply live_children_ids_NoDup; exact Hids | constructor].
   Qed.
 
   Definition render_ok (k : task) : Prop := forall g, In g (all_ids k) -> In g (map dd_id descs).
@@ -605,9 +606,10 @@ Section Stream.
     set (L := map dd_id live) in *.
     assert (HL : incl L (children 0) /\ NoDup L).
     { split.
-      - intros x Hx. apply in_map_iff in Hx. destruct Hx as [d [Hd1 Hd2]]. rewrite R5 in Hd2.
+      - intros x Hx. apply in_map_iff in Hx. destruct Hx as [d [Hd1 Hd2]].
+        destruct R5 as [R5 | R5]; rewrite R5 in Hd2; [| contradiction].
         apply live_children_In in Hd2. apply children_In. exists d. tauto.
-      - unfold L. rewrite R5. apply live_children_ids_NoDup. exact Hids. }
+      - unfold L. destruct R5 as [R5 | R5]; rewrite R5; [apply live_children_ids_NoDup; exact Hids | constructor]. }
     destruct HL as [HL1 HL2].
     assert (Hpar0 : forall x, In x L -> parent_of descs x = 0).
     { intros x Hx. apply (children_parent 0 x (HL1 x Hx)). }
